@@ -382,17 +382,19 @@ impl<T: Elem + SatisfyTraits<Tr>, M: MX, Tr: TrX + ?Sized> World<T, M, Tr> {
             if T::SIZE != 0 && bytes_id != id { rep.push(Fail { class: Class::Vec, kind: "handle-bytes", detail: format!("as_bytes shows id {bytes_id}, downcast_ref shows {id}") }); }
         };
         let rp = &mut rep;
+        const OOB: u16 = u16::MAX - 1;
+        let ok = idx < len; // never dereference a handle the vector should not have produced
         let r: Result<Option<u16>, Caught> = guarded(move || match (api, kind) {
-            (Api::Erased, GetKind::Get) => a.get(idx).map(|e| { let id = e.downcast_ref::<T>().unwrap().id(); reports(e.value_typeid(), e.size(), elem::id_of_bytes(e.as_bytes()), id, rp); id }),
-            (Api::Erased, GetKind::At) => { let e = a.at(idx); let id = e.downcast_ref::<T>().unwrap().id(); reports(e.value_typeid(), e.size(), elem::id_of_bytes(e.as_bytes()), id, rp); Some(id) }
-            (Api::Erased, GetKind::GetMut) => a.get_mut(idx).map(|mut e| { let id = e.downcast_mut::<T>().unwrap().id(); reports(e.value_typeid(), e.size(), elem::id_of_bytes(e.as_bytes()), id, rp); id }),
-            (Api::Erased, GetKind::AtMut) => { let mut e = a.at_mut(idx); let id = e.downcast_mut::<T>().unwrap().id(); reports(e.value_typeid(), e.size(), elem::id_of_bytes(e.as_bytes()), id, rp); Some(id) }
-            (Api::Erased, GetKind::GetUncheckedInRange) => { if idx < a.len() { let e = unsafe { a.get_unchecked(idx) }; Some(e.downcast_ref::<T>().unwrap().id()) } else { None } }
-            (Api::Typed, GetKind::Get) => a.downcast_ref::<T>().unwrap().get(idx).map(|t| t.id()),
-            (Api::Typed, GetKind::At) => Some(a.downcast_ref::<T>().unwrap().at(idx).id()),
-            (Api::Typed, GetKind::GetMut) => a.downcast_mut::<T>().unwrap().get_mut(idx).map(|t| t.id()),
-            (Api::Typed, GetKind::AtMut) => Some(a.downcast_mut::<T>().unwrap().at_mut(idx).id()),
-            (Api::Typed, GetKind::GetUncheckedInRange) => { let t = a.downcast_ref::<T>().unwrap(); if idx < t.len() { Some(unsafe { t.get_unchecked(idx) }.id()) } else { None } }
+            (Api::Erased, GetKind::Get) => a.get(idx).map(|e| { if !ok { return OOB; } let id = e.downcast_ref::<T>().unwrap().id(); reports(e.value_typeid(), e.size(), elem::id_of_bytes(e.as_bytes()), id, rp); id }),
+            (Api::Erased, GetKind::At) => { let e = a.at(idx); if !ok { return Some(OOB); } let id = e.downcast_ref::<T>().unwrap().id(); reports(e.value_typeid(), e.size(), elem::id_of_bytes(e.as_bytes()), id, rp); Some(id) }
+            (Api::Erased, GetKind::GetMut) => a.get_mut(idx).map(|mut e| { if !ok { return OOB; } let id = e.downcast_mut::<T>().unwrap().id(); reports(e.value_typeid(), e.size(), elem::id_of_bytes(e.as_bytes()), id, rp); id }),
+            (Api::Erased, GetKind::AtMut) => { let mut e = a.at_mut(idx); if !ok { return Some(OOB); } let id = e.downcast_mut::<T>().unwrap().id(); reports(e.value_typeid(), e.size(), elem::id_of_bytes(e.as_bytes()), id, rp); Some(id) }
+            (Api::Erased, GetKind::GetUncheckedInRange) => { if idx < a.len() && ok { let e = unsafe { a.get_unchecked(idx) }; Some(e.downcast_ref::<T>().unwrap().id()) } else { None } }
+            (Api::Typed, GetKind::Get) => a.downcast_ref::<T>().unwrap().get(idx).map(|t| if ok { t.id() } else { OOB }),
+            (Api::Typed, GetKind::At) => { let t = a.downcast_ref::<T>().unwrap().at(idx); Some(if ok { t.id() } else { OOB }) }
+            (Api::Typed, GetKind::GetMut) => a.downcast_mut::<T>().unwrap().get_mut(idx).map(|t| if ok { t.id() } else { OOB }),
+            (Api::Typed, GetKind::AtMut) => { let t = a.downcast_mut::<T>().unwrap().at_mut(idx); Some(if ok { t.id() } else { OOB }) }
+            (Api::Typed, GetKind::GetUncheckedInRange) => { let t = a.downcast_ref::<T>().unwrap(); if idx < t.len() && ok { Some(unsafe { t.get_unchecked(idx) }.id()) } else { None } }
         });
         out.fails.append(&mut rep);
         let panics = matches!(kind, GetKind::At | GetKind::AtMut);
@@ -492,6 +494,7 @@ impl<T: Elem + SatisfyTraits<Tr>, M: MX, Tr: TrX + ?Sized> World<T, M, Tr> {
         // storage oracles
         track::with_ts(|ts| {
             ts.scan();
+            for e in ts.lifecycle_errors(T::SIZE, T::ALIGN) { out.fails.push(Fail { class: Class::Mem, kind: "mem-lifecycle", detail: e }); }
             for e in ts.errs.drain(..) { out.fails.push(Fail { class: Class::Mem, kind: if e.contains("stale") { "stale-write" } else { "oob-write" }, detail: e }); }
             if !out.faulted && ts.live_blocks() != 0 { out.fails.push(Fail { class: Class::Mem, kind: "storage-leak", detail: format!("{} storage block(s) never released", ts.live_blocks()) }); }
         });
@@ -580,6 +583,14 @@ impl<T: Elem + SatisfyTraits<Tr>, M: MX, Tr: TrX + ?Sized> Runner for Cfg<T, M, 
             Edge::Lazy { src, j, depth, uses, how, copies } => w.do_lazy(src, j, depth, uses, how, copies, &mut out),
             Edge::ForgetHandle { op, idx, follow } => w.do_forget_handle(op, ix(idx), follow, &mut out),
             Edge::ForgetRange { splice, a, b, pat, stage, rn, follow } => w.do_forget_range(splice, ix(a), ix(b), pat, stage, rn as usize, follow, &mut out),
+            Edge::WriteRead { w: wk, r, i } => w.do_write_read(wk, r, ix(i), &mut out),
+            Edge::Swap { lhs, rhs, i } => w.do_swap(lhs, rhs, ix(i), &mut out),
+            Edge::WrongPush(src, ty) => w.do_wrong_push_insert(src, None, ty, &mut out),
+            Edge::WrongInsert(i, src, ty) => w.do_wrong_push_insert(src, Some(ix(i)), ty, &mut out),
+            Edge::WrongSpliceItem { a, b, rn, bad_at, ty } => w.do_wrong_splice(ix(a), ix(b), rn as usize, bad_at as usize, ty, &mut out),
+            Edge::WrongSwap(kind, ty) => w.do_wrong_swap(kind, ty, &mut out),
+            Edge::WrongDowncast(kind, ty) => w.do_wrong_downcast(kind, ty, &mut out),
+            Edge::TypeReports(_) => w.do_type_reports(&mut out),
             Edge::CloneVec { then } => w.do_clone(then, &mut out),
             Edge::CloneEmpty { then } => w.do_clone_empty(then, &mut out),
             Edge::CloneEmptyIn { target, then } => w.do_clone_empty_in(target, then, &mut out),
@@ -598,7 +609,7 @@ pub fn edge_needs_b(e: &Edge) -> bool {
         Edge::Pop(_, s) | Edge::Remove(_, _, s) | Edge::SwapRemove(_, _, s) => matches!(s, Sink::MutMoveB | Sink::PushB | Sink::InsertB0 | Sink::LazyB(_)),
         Edge::Drain { sink, .. } => matches!(sink, Sink::MutMoveB | Sink::PushB | Sink::InsertB0 | Sink::LazyB(_)),
         Edge::Splice { sink, rsrc, .. } => matches!(sink, Sink::MutMoveB | Sink::PushB | Sink::InsertB0 | Sink::LazyB(_)) || matches!(rsrc, RSrc::BDrain | RSrc::LzRefs),
-        Edge::Lazy { .. } | Edge::ForgetRange { .. } => true,
+        Edge::Lazy { .. } | Edge::ForgetRange { .. } | Edge::WriteRead { .. } | Edge::Swap { .. } => true,
         _ => false,
     }
 }
